@@ -9,7 +9,9 @@ package main
 //	e <idx> <term> <hex>   append one committed entry (hex = command.Encode bytes) to the case's log
 //	                                                   -> e<k> <kind> | e<k> undecodable
 //	run <tok> <tok> ...    fresh state machine on a fresh state file; tok = `a-b` (ApplyBatch of log
-//	                       positions [a,b)) or `r` (restart: new StateMachine, Load from the file)
+//	                       positions [a,b)) or `r` (restart: new StateMachine, Load from the file) or
+//	                       `s<k>@<m>` (install, through the raft apply scheduler, a snapshot whose payload
+//	                       is the state after k entries and whose metadata index is that of entry m-1)
 //	                                                   -> I=<st> B[<res>;...]=<st> R=<st> ...
 //	    <st>  = <logical digest>/<revision>/<applied index>/<F>/<V>
 //	            logical digest = sha256 of the canonical JSON of Snapshot() with AppliedRaftIndex
@@ -35,6 +37,7 @@ import (
 
 	"github.com/WuKongIM/WuKongIM/pkg/controller/command"
 	"github.com/WuKongIM/WuKongIM/pkg/controller/fsm"
+	craft "github.com/WuKongIM/WuKongIM/pkg/controller/raft"
 	"github.com/WuKongIM/WuKongIM/pkg/controller/state"
 	"github.com/WuKongIM/WuKongIM/pkg/controller/statefile"
 )
@@ -180,6 +183,26 @@ func (r *c18Runner) Step(op string) string {
 				toks = append(toks, tok{-1, -1})
 				continue
 			}
+			if strings.HasPrefix(t, "s") {
+				// s<k>@<m>: install a snapshot whose payload is the one-at-a-time state after k
+				// entries and whose metadata index is the index of entry m-1 (0 if m = 0)
+				p := strings.Split(t[1:], "@")
+				if len(p) != 2 {
+					return "bad-op"
+				}
+				k, e1 := strconv.Atoi(p[0])
+				m, e2 := strconv.Atoi(p[1])
+				if e1 != nil || e2 != nil || k < 0 || m < 0 || k > len(r.log) || m > len(r.log) {
+					return "bad-op"
+				}
+				for _, e := range r.log[:k] {
+					if !e.ok {
+						return "bad-op"
+					}
+				}
+				toks = append(toks, tok{-2 - k, m})
+				continue
+			}
 			p := strings.Split(t, "-")
 			if len(p) != 2 {
 				return "bad-op"
@@ -220,6 +243,10 @@ func (r *c18Runner) Step(op string) string {
 		}
 		out := []string{"I=" + r.stLine(sm, path)}
 		for _, t := range toks {
+			if t.a <= -2 {
+				out = append(out, r.snapshotTok(sm, path, -2-t.a, t.b))
+				continue
+			}
 			if t.a < 0 {
 				sm, e = open()
 				if sm == nil {
@@ -258,6 +285,47 @@ func (r *c18Runner) Step(op string) string {
 		return r.contractOp()
 	}
 	return "bad-op"
+}
+
+// snapshotTok installs, through the apply scheduler's snapshot path, a snapshot
+// whose payload is Encode(state after the first k entries, applied one at a time on
+// a scratch machine) and whose metadata index is the index of entry m-1.
+func (r *c18Runner) snapshotTok(sm *fsm.StateMachine, path string, k, m int) string {
+	ctx := context.Background()
+	r.runs++
+	dir := filepath.Join(r.root, fmt.Sprintf("snap-%d", r.runs))
+	if err := os.MkdirAll(dir, 0o700); err != nil {
+		return "ERR:mkdir"
+	}
+	defer os.RemoveAll(dir)
+	src, err := fsm.New(statefile.New(filepath.Join(dir, "cluster-state.json")))
+	if err != nil {
+		return "ERR:new"
+	}
+	if err := src.Load(ctx); err != nil {
+		return "ERR:load"
+	}
+	for _, en := range r.log[:k] {
+		if _, err := src.ApplyBatch(ctx, []fsm.AppliedCommand{{Index: en.idx, Term: en.term, Command: en.cmd}}); err != nil {
+			return "ERR:apply"
+		}
+	}
+	snap := src.Snapshot(ctx)
+	if snap.Revision == 0 {
+		return "S=nosnap"
+	}
+	data, err := state.Encode(snap)
+	if err != nil {
+		return "ERR:encode"
+	}
+	var metaIdx, metaTerm uint64
+	if m > 0 {
+		metaIdx, metaTerm = r.log[m-1].idx, r.log[m-1].term
+	}
+	if err := craft.VerifInstallSnapshot(ctx, sm, data, metaIdx, metaTerm); err != nil {
+		return "ERR:install"
+	}
+	return "S=" + r.stLine(sm, path)
 }
 
 // contractOp checks, for every entry of the log, the contract the batch theorems
@@ -1184,6 +1252,31 @@ func genC18(g *Gen) {
 		}
 		g.Op("run", "%s", c18RunLine(g, single, 0, 0))
 		g.Op("contract", "")
+		// snapshot installs: payload ahead of / equal to / behind its metadata index, then replay of the gap
+		for q := 0; q < 3; q++ {
+			k := g.R.Range(1, n)
+			var m int
+			switch q {
+			case 0: // payload AHEAD of the metadata index (compaction raced with apply)
+				m = g.R.Intn(k)
+				g.Count("snapshot:payload-ahead")
+			case 1:
+				m = k
+				g.Count("snapshot:payload-equal")
+			default:
+				m = g.R.Range(k, n)
+				g.Count("snapshot:payload-behind")
+			}
+			pre := ""
+			if g.R.Bool() && m > 0 { // the follower already applied a prefix
+				pre = fmt.Sprintf("0-%d ", g.R.Range(1, m))
+			}
+			from := m
+			if q == 2 {
+				from = g.R.Range(k, m) // entries between payload and metadata index are skipped
+			}
+			g.Op("run", "%ss%d@%d %d-%d", pre, k, m, from, n)
+		}
 		if short {
 			g.Count("log:short-all-partitions")
 			for _, cuts := range c18Partitions(n) {
